@@ -51,23 +51,65 @@ structure Vuln where
   versionKind : Option Bytes := none
   deriving Repr, BEq, DecidableEq
 
-/-! ### Go selector paths → fields -/
+/-! ### Go selector paths → fields
 
-def distField (f : Bytes) (d : Dist) : Option Bytes :=
-  if f == [68, 73, 68] then some d.did                                   -- DID
-  else if f == [78, 97, 109, 101] then some d.name                         -- Name
-  else if f == [86, 101, 114, 115, 105, 111, 110] then some d.version      -- Version
-  else if f == [86, 101, 114, 115, 105, 111, 110, 67, 111, 100, 101, 78, 97, 109, 101] then some d.versionCodeName
-  else if f == [86, 101, 114, 115, 105, 111, 110, 73, 68] then some d.versionID
-  else if f == [65, 114, 99, 104] then some d.arch
-  else if f == [67, 80, 69] then some d.cpe
-  else if f == [80, 114, 101, 116, 116, 121, 78, 97, 109, 101] then some d.prettyName
+  The generated tables name fields by their Go selector path.  A path is
+  decoded to a constructor once (`decodeRec`, `decodeVuln`, evaluated by the
+  kernel on the concrete paths of the tables); the meaning of a constructor
+  is a projection. -/
+
+inductive DField where
+  | did | name | version | versionCodeName | versionID | arch | cpe | prettyName
+  deriving Repr, BEq, DecidableEq
+
+inductive RpField where
+  | name | key | uri
+  deriving Repr, BEq, DecidableEq
+
+/-- Fields of an IndexRecord the query builder or a Filter reads. -/
+inductive RField where
+  | pkgName | pkgKind | pkgModule | pkgArch | srcName | srcKind | normKind
+  | dist (f : DField)
+  | repo (f : RpField)
+  deriving Repr, BEq, DecidableEq
+
+/-- Fields of a Vulnerability stored in a column. -/
+inductive VField where
+  | pkgName | pkgKind | pkgModule | pkgArch | fixedIn
+  | dist (f : DField)
+  | repo (f : RpField)
+  deriving Repr, BEq, DecidableEq
+
+def DField.get : DField → Dist → Bytes
+  | .did, d => d.did
+  | .name, d => d.name
+  | .version, d => d.version
+  | .versionCodeName, d => d.versionCodeName
+  | .versionID, d => d.versionID
+  | .arch, d => d.arch
+  | .cpe, d => d.cpe
+  | .prettyName, d => d.prettyName
+
+def RpField.get : RpField → Repo → Bytes
+  | .name, r => r.name
+  | .key, r => r.key
+  | .uri, r => r.uri
+
+def decodeDist (f : Bytes) : Option DField :=
+  if f == [68, 73, 68] then some .did
+  else if f == [78, 97, 109, 101] then some .name
+  else if f == [86, 101, 114, 115, 105, 111, 110] then some .version
+  else if f == [86, 101, 114, 115, 105, 111, 110, 67, 111, 100, 101, 78, 97, 109, 101] then some .versionCodeName
+  else if f == [86, 101, 114, 115, 105, 111, 110, 73, 68] then some .versionID
+  else if f == [65, 114, 99, 104] then some .arch
+  else if f == [67, 80, 69] then some .cpe
+  else if f == [80, 114, 101, 116, 116, 121, 78, 97, 109, 101] then some .prettyName
   else none
 
-def repoField (f : Bytes) (r : Repo) : Option Bytes :=
-  if f == [78, 97, 109, 101] then some r.name
-  else if f == [75, 101, 121] then some r.key
-  else if f == [85, 82, 73] then some r.uri
+def decodeRepo (f : Bytes) : Option RpField :=
+  if f == [78, 97, 109, 101] then some .name
+  else if f == [75, 101, 121] then some .key
+  else if f == [85, 82, 73] then some .uri
   else none
 
 /-- Split `A.B.C` into `A` and `B.C`. -/
@@ -76,57 +118,76 @@ def splitPath (p : Bytes) : Bytes × Bytes :=
   | some (a, b) => (a, b)
   | none => (p, [])
 
+/-- `record.<path>` -/
+def decodeRec (path : Bytes) : Option RField :=
+  let (h, t) := splitPath path
+  if h == [80, 97, 99, 107, 97, 103, 101] then                        -- Package
+    if t == [78, 97, 109, 101] then some .pkgName
+    else if t == [75, 105, 110, 100] then some .pkgKind
+    else if t == [77, 111, 100, 117, 108, 101] then some .pkgModule
+    else if t == [65, 114, 99, 104] then some .pkgArch
+    else if t == [83, 111, 117, 114, 99, 101, 46, 78, 97, 109, 101] then some .srcName
+    else if t == [83, 111, 117, 114, 99, 101, 46, 75, 105, 110, 100] then some .srcKind
+    else if t == [78, 111, 114, 109, 97, 108, 105, 122, 101, 100, 86, 101, 114, 115, 105, 111, 110, 46, 75, 105, 110, 100] then some .normKind
+    else none
+  else if h == [68, 105, 115, 116, 114, 105, 98, 117, 116, 105, 111, 110] then (decodeDist t).map .dist
+  else if h == [82, 101, 112, 111, 115, 105, 116, 111, 114, 121] then (decodeRepo t).map .repo
+  else none
+
+/-- `vuln.<path>` as `updateVulnerabilities` names it. -/
+def decodeVuln (path : Bytes) : Option VField :=
+  let (h, t) := splitPath path
+  if h == [80, 97, 99, 107, 97, 103, 101] then
+    if t == [78, 97, 109, 101] then some .pkgName
+    else if t == [75, 105, 110, 100] then some .pkgKind
+    else if t == [77, 111, 100, 117, 108, 101] then some .pkgModule
+    else if t == [65, 114, 99, 104] then some .pkgArch
+    else none
+  else if h == [68, 105, 115, 116] then (decodeDist t).map .dist
+  else if h == [82, 101, 112, 111] then (decodeRepo t).map .repo
+  else if path == [70, 105, 120, 101, 100, 73, 110, 86, 101, 114, 115, 105, 111, 110] then some .fixedIn
+  else none
+
 inductive FieldVal where
   | unknown            -- not a path of the record type
   | nilDeref           -- Go would panic
   | val (b : Bytes)
   deriving Repr, BEq, DecidableEq
 
-/-- `record.<path>` -/
+def RField.get : RField → Rec → FieldVal
+  | .pkgName, r => .val r.pkg.name
+  | .pkgKind, r => .val r.pkg.kind
+  | .pkgModule, r => .val r.pkg.module
+  | .pkgArch, r => .val r.pkg.arch
+  | .srcName, r => (match r.pkg.src with | none => .nilDeref | some x => .val x.1)
+  | .srcKind, r => (match r.pkg.src with | none => .nilDeref | some x => .val x.2)
+  | .normKind, r => .val r.pkg.normKind
+  | .dist f, r => (match r.dist with | none => .nilDeref | some d => .val (f.get d))
+  | .repo f, r => (match r.repo with | none => .nilDeref | some x => .val (f.get x))
+
+/-- `updateVulnerabilities` replaces a nil Dist/Repo by the zero value, so
+    every field has a value. -/
+def VField.get : VField → Vuln → Bytes
+  | .pkgName, v => v.pkgName
+  | .pkgKind, v => v.pkgKind
+  | .pkgModule, v => v.pkgModule
+  | .pkgArch, v => v.pkgArch
+  | .fixedIn, v => v.fixedIn
+  | .dist f, v => f.get v.dist
+  | .repo f, v => f.get v.repo
+
 def recField (path : Bytes) (r : Rec) : FieldVal :=
-  let (h, t) := splitPath path
-  if h == [80, 97, 99, 107, 97, 103, 101] then                        -- Package
-    if t == [78, 97, 109, 101] then .val r.pkg.name
-    else if t == [75, 105, 110, 100] then .val r.pkg.kind
-    else if t == [77, 111, 100, 117, 108, 101] then .val r.pkg.module
-    else if t == [65, 114, 99, 104] then .val r.pkg.arch
-    else if t == [83, 111, 117, 114, 99, 101, 46, 78, 97, 109, 101] then       -- Source.Name
-      match r.pkg.src with | none => .nilDeref | some x => .val x.1
-    else if t == [83, 111, 117, 114, 99, 101, 46, 75, 105, 110, 100] then      -- Source.Kind
-      match r.pkg.src with | none => .nilDeref | some x => .val x.2
-    else if t == [78, 111, 114, 109, 97, 108, 105, 122, 101, 100, 86, 101, 114, 115, 105, 111, 110, 46, 75, 105, 110, 100] then
-      .val r.pkg.normKind
-    else .unknown
-  else if h == [68, 105, 115, 116, 114, 105, 98, 117, 116, 105, 111, 110] then   -- Distribution
-    match r.dist with
-    | none => .nilDeref
-    | some d => match distField t d with | some v => .val v | none => .unknown
-  else if h == [82, 101, 112, 111, 115, 105, 116, 111, 114, 121] then             -- Repository
-    match r.repo with
-    | none => .nilDeref
-    | some x => match repoField t x with | some v => .val v | none => .unknown
-  else .unknown
+  match decodeRec path with
+  | none => .unknown
+  | some f => f.get r
 
-/-- `vuln.<path>` as `updateVulnerabilities` reads it (nil Dist/Repo already
-    replaced by the zero values). -/
-def vulnField (path : Bytes) (v : Vuln) : Option Bytes :=
-  let (h, t) := splitPath path
-  if h == [80, 97, 99, 107, 97, 103, 101] then
-    if t == [78, 97, 109, 101] then some v.pkgName
-    else if t == [75, 105, 110, 100] then some v.pkgKind
-    else if t == [77, 111, 100, 117, 108, 101] then some v.pkgModule
-    else if t == [65, 114, 99, 104] then some v.pkgArch
-    else none
-  else if h == [68, 105, 115, 116] then distField t v.dist                 -- Dist
-  else if h == [82, 101, 112, 111] then repoField t v.repo                 -- Repo
-  else if path == [70, 105, 120, 101, 100, 73, 110, 86, 101, 114, 115, 105, 111, 110] then some v.fixedIn
-  else none
-
-/-- The value stored in a column of `vuln`, by the INSERT's column map. -/
-def rowCol (col : Bytes) (v : Vuln) : Option Bytes :=
+/-- The field stored in a column of `vuln`, by the INSERT's column map. -/
+def colField (col : Bytes) : Option VField :=
   match lookupFirst JoinQuery.insertColumns col with
   | none => none
-  | some path => vulnField path v
+  | some path => decodeVuln path
+
+def rowCol (col : Bytes) (v : Vuln) : Option Bytes := (colField col).map (·.get v)
 
 /-! ### Filter -/
 
